@@ -140,6 +140,19 @@ func (sc *storageCache) remove(store *contractStoreImpl) {
 	sc.clients.Remove(store.elem)
 }
 
+// pushIfInProgress registers the store as a client unless the result is
+// already available. It returns false if complete() has been called.
+func (sc *storageCache) pushIfInProgress(store *contractStoreImpl) bool {
+	sc.lock.Lock()
+	defer sc.lock.Unlock()
+	if sc.status == csComplete {
+		return false
+	}
+	store.elem = sc.clients.PushBack(store)
+	store.sc = sc
+	return true
+}
+
 // if complete is already called, return false
 func (sc *storageCache) complete(path string, err error) bool {
 	sc.lock.Lock()
@@ -167,12 +180,21 @@ func (cs *contractStoreImpl) WaitResult() (string, error) {
 }
 
 func (cs *contractStoreImpl) Dispose() {
-	cs.ch <- nil
+	// wake up a possible waiter, but never block: the result may already
+	// be in the channel when nobody has called WaitResult()
+	select {
+	case cs.ch <- nil:
+	default:
+	}
 	cs.sc.remove(cs)
 }
 
 func (cs *contractStoreImpl) notify(err error) {
-	cs.ch <- err
+	// the store may have been disposed already (channel is full)
+	select {
+	case cs.ch <- err:
+	default:
+	}
 }
 
 func (cm *contractManager) GetHandler(from, to module.Address, value *big.Int, ctype int, data []byte) (ContractHandler, error) {
@@ -264,8 +286,7 @@ func (cm *contractManager) PrepareContractStore(
 	hashStr := string(codeHash)
 	cs := &contractStoreImpl{ch: make(chan error, 1)}
 	if cacheInfo, ok := cm.storageCache[hashStr]; ok {
-		if cacheInfo.status != csComplete {
-			cacheInfo.push(cs)
+		if cacheInfo.pushIfInProgress(cs) {
 			cm.lock.Unlock()
 			return cs, nil
 		}
